@@ -274,6 +274,8 @@ def run(tier, replay=None):
                 continue
             cm, cp = int.from_bytes(img[13:15], "big"), int.from_bytes(img[15:17], "big")
             want = set()
+            if any(img[18 + 34 * b + 32] > 127 for b in range(cm + cp)):
+                continue        # LSB 128..255 is the XG SFX range of the file format, outside the key space of the bank API (identifiers are 7-bit)
             for b in range(cm + cp):
                 lsb, msb = img[18 + 34 * b + 32], img[18 + 34 * b + 33]
                 want.add("%d:%d:%d" % (1 if b >= cm else 0, msb & 127, lsb & 127))
